@@ -79,6 +79,11 @@ pub fn model_object(ops: &[ClaimOp]) -> Map<String, Value> {
             ClaimOp::Remove(k) => {
                 m.remove(k);
             }
+            ClaimOp::Extend(kvs) => {
+                for (k, v) in kvs {
+                    m.insert(k.clone(), v.clone());
+                }
+            }
         }
     }
     m
